@@ -467,6 +467,17 @@ func c16R3(c *Ctx) {
 		if _, isCmp := nf.V.(*ssa.BinOp); isCmp {
 			return nil, 0
 		}
+		// the flag tested is the one the line reader was given (not a stale copy of it: the parameter before the
+		// tunnel / tmux adjustments)
+		given := false
+		for _, rl := range callsIn(f, idIs("(*trzsz.trzszBuffer).readLine")) {
+			if sameValue(nf.V, rl.Common().Args[1]) {
+				given = true
+			}
+		}
+		if !given {
+			return nil, 0
+		}
 		for _, l := range origins(nf.V, originOpts{}) {
 			if isVar("mayHasJunk")(l.V) {
 				if nf.Pol {
